@@ -11,6 +11,9 @@ CHECKS = {
  "C07": dict(level="model_checking", technique="CrossHair/z3 bounded symbolic execution: one inductive step of the real store classes from every valid pre-state, all observers compared with a dictionary reference model",
              text="STEP lemma: for MemoryStore, FileStore (ShimFS), ProxyStore, IndexerStore, OverlayStore with empty fall-back, MountPointStore and the default global composition (quick: 4 of the 9 configurations), from each of 28 valid pre-states over a 6-key universe, each well-formed operation (store, metadata update, remove, makedir, recursive / empty removedir, reads) with payload length 0..2 and symbolic caller metadata leaves a state that equals the reference model through every observer (bytes, caller fields, key/name/is_dir/size/md5, listings, frame condition). The path tree is exhausted per (configuration, operation).",
              design="§4 C07"),
+ "C13": dict(level="model_checking", technique="CrossHair/z3 bounded symbolic execution: one-step map lemma over cache back-ends and combinators from API-reached pre-states chosen by solver decisions; path-scheme kernel on free symbolic key strings",
+             text="In-process back-ends only (MemoryCache, CacheProxy, FileCache/ShimFS, StoreCache flat+nested on MemoryStore and FileStore/ShimFS, '+' with MemoryCache/NoCache, four conditional wrappers with symbolic attribute value; quick: 7 of 14): from every pre-state (each of 3 (thorough 4) confusable keys absent/ready/metadata-only) one operation (store of 5 value types, store_metadata evaluation/ready, remove, clean, reads) leaves get/get_metadata/contains/keys of every key equal to the map model. Kernel: nested StoreCache.to_path is injective and prefix-free for |k1|<=2 (4), |k2|<=|k1|+14 outside the listed collision. SQL/XOR/Fernet caches are outside the claim.",
+             design="§4 C13"),
  "C14": dict(level="model_checking", technique="CrossHair/z3 bounded symbolic execution: routing/translation kernels on free symbolic key and prefix strings, union-view step over mount tables and contents chosen by solver decisions",
              text="Kernels: for all prefixes |p|<=3 and keys |k|<=4 over {a,b,/} (thorough 4/5) PrefixStore.translate_key strips exactly the prefix and its inverse/to_root_key restore the key; with two mounts (outer first) route_to picks the innermost mount containing the key else the default, and a sub-store entry is reached through the root under to_root_key. Union views: 5 (thorough 7) mount tables x with/without default x all subsets of a 6-key (thorough 8-key) universe x one more write: every observer of the composite equals the re-prefixed union and each part holds exactly its share.",
              design="§4 C14"),
